@@ -6,6 +6,8 @@ the reference semantics over the type pool (selection layer, typing dispatch).""
 from drivers import deser_e2e
 from vf.pcheck import run_p
 
+from drivers import validators_gating
+
 from .common import ASSUME_CHILDREN, TRUSTED, generic_replay
 
 LEVEL = "proof"
@@ -17,6 +19,8 @@ def run(report, tier, seed):
     report.assumptions.append(ASSUME_CHILDREN)
     run_p(report, PROP, tier)
     deser_e2e.run(report, tier, seed, ("errors",), "deserialize_vs_reference")
+    # objects with validators (generated validator programs of the C10 driver), judged on this property's clauses only
+    validators_gating.run(report, tier, seed, kinds=("errors-mismatch",), log_name="objects_with_validators")
 
 
 replay = generic_replay
